@@ -25,4 +25,9 @@ finally:
     subprocess.run(["git", "-C", "/repo", "checkout", "--", "."], check=True)
     for tr in ("cbits.py", "omp.py"):
         subprocess.run(["/venv/bin/python", os.path.join(VERIF, "harness", "translate", tr)])
+det = meta.get("detected_by") or {}
+for pid, o in out.items():
+    det[pid] = {"quick_exit": o["exit"], "violation_line": next((l for l in o["lines"] if l.startswith("VIOLATION")), None)}
+meta["detected_by"] = det
+json.dump(meta, open(os.path.join(sd, "meta.json"), "w"), indent=1)
 print("@@SEED@@" + json.dumps(out))
